@@ -20,6 +20,9 @@ fn rights() -> Vec<Vec<Val>> {
         vec![kv(0, 5), kv(1, 6), kv(1, 7), kv(0, 8), kv(7, 1), kv(50, 2)],
         vec![kv(0, 1), kv(0, 2), kv(0, 3), kv(0, 4), kv(7, 9), kv(7, 9)],
         vec![kv(2, 0)],
+        // keys that are UNEQUAL to the left side's small keys but share their hash (the harness's
+        // Val hashes integers modulo 16), next to really equal ones
+        vec![kv(16, 1), kv(17, 2), kv(1, 3), kv(32, 4), kv(48, 5), kv(2, 6), kv(18, 7), kv(-15, 8)],
     ]
 }
 
@@ -64,8 +67,8 @@ fn generate(seed: u64, tier: Tier, em: &mut Emitter) {
     });
     // empty / non-empty sides in all combinations, every kind, both modes
     for kind in KINDS {
-        for l in [vec![], vec![kv(1, 1)], vec![kv(1, 1), kv(1, 2), kv(2, 3)]] {
-            for r in [vec![], vec![kv(1, 7)], vec![kv(1, 7), kv(1, 8), kv(3, 9)]] {
+        for l in [vec![], vec![kv(1, 1)], vec![kv(1, 1), kv(1, 2), kv(2, 3)], vec![kv(1, 1), kv(17, 2), kv(33, 3)]] {
+            for r in [vec![], vec![kv(1, 7)], vec![kv(1, 7), kv(1, 8), kv(3, 9)], vec![kv(17, 7), kv(49, 8), kv(-15, 9)]] {
                 for mode in [Mode::Seq, Mode::Par(0), Mode::Par(2), Mode::Par(5)] {
                     let src = Src::Vec(Shape::KV, l.clone());
                     emit_prog(em, &src, &[Step::Join(kind, vec![], r.clone())], mode, true,
